@@ -246,7 +246,7 @@ var c14Records = []c14Val{
 }
 
 func C14_Jobs() []string {
-	return []string{"flat/json", "flat/zhttp-json", "flat/form", "flat/query", "flat/env", "nested/json", "nested/zhttp-json", "nested/form", "nested/query", "nested/env"}
+	return append([]string{"flat/json", "flat/zhttp-json", "flat/form", "flat/query", "flat/env", "nested/json", "nested/zhttp-json", "nested/form", "nested/query", "nested/env"}, c14SymJobs()...)
 }
 func C14_Covers() []string { return []string{"clean-record", "failing-record"} }
 
@@ -275,6 +275,10 @@ func c14Obs(errs z.ZogIssueMap, d *c14Rec, nested bool, rename func(string) stri
 
 func C14_Run(job string) {
 	a, b, _, _ := split3(job)
+	if a == "sym" {
+		c14Sym(b)
+		return
+	}
 	nested := a == "nested"
 	rec := c14Records[v.Choice("record", len(c14Records))]
 	v.MapOrderChoice(false)
